@@ -977,7 +977,7 @@ func SplitMrt(data []byte, atEOF bool) (advance int, token []byte, err error) {
 	if atEOF && len(data) == 0 {
 		return 0, nil, nil
 	}
-	if cap(data) < MRT_COMMON_HEADER_LEN { // read more
+	if len(data) < MRT_COMMON_HEADER_LEN { // read more
 		return 0, nil, nil
 	}
 	hdr, errh := ParseHeader(data[:MRT_COMMON_HEADER_LEN])
